@@ -46,6 +46,10 @@ def targets_of(shape):
     return sorted(out)
 
 
+class _Skip(Exception):
+    pass
+
+
 def interpret(shape, subsizes, plan):
     """apply (unfuse list, fuse groupings, expand positions) to an abstract shape.
     returns (final shape, final subsizes) or raises ValueError on an ill-formed plan"""
@@ -182,7 +186,45 @@ def reshape_failures(d, st=None):
                     fails.append((f"C07/{name}/identity-wildcard", f"{shape}: reshape({wild}) changed the array"))
             except Exception as e:
                 fails.append((f"C07/{name}/identity-wildcard-raised-{type(e).__name__}", f"{shape} as {wild}: {e}"))
-    for target in targets_of(shape):
+    # two nested merges, a conjugate in between, and the two splits back: must give the conjugate of the original
+    # (abelian arrays: conj commutes with regrouping; the sub-index bookkeeping has to be conjugated at every level)
+    if not ferm and len(shape) >= 3 and 1 not in shape and all(ix.subinfo is None for ix in x.indices) and x.blocks:
+        try:
+            m1 = (shape[0] * shape[1],) + shape[2:]
+            y1 = x.reshape(m1)
+            s1 = tuple(y1.shape)
+            m2 = (s1[0] * s1[1],) + s1[2:]
+            y2 = y1.reshape(m2)
+            if s1 != m1 or tuple(y2.shape) != m2:
+                raise _Skip()  # sparsity shrank a merged axis: sizes no longer identify the grouping
+            w = y2.conj()
+            z = w.reshape(s1).reshape(shape)
+            if st is not None:
+                st.transitions += 5
+            want_keys = tuple((k[0], not k[1], None) for k in keys)
+            if tuple(index_key(i) for i in z.indices) != want_keys:
+                fails.append(("C07/nested-merge-conj-split/indices", f"{shape}: merge, merge, conj, split, split does not give the conjugated original indices"))
+            elif not exact_equal(embed(z, frame_of(x), dtype=X.dtype), np.conj(X)):
+                fails.append(("C07/nested-merge-conj-split/value", f"{shape}"))
+        except _Skip:
+            pass
+        except Exception as e:
+            fails.append((f"C07/nested-merge-conj-split/raised-{type(e).__name__}", f"{shape}: {e}"))
+    # targets that split fused axes again (one and two levels), taken from the sub-index info of the array itself
+    split_targets = []
+    for ax, ix in enumerate(x.indices):
+        if ix.subinfo is not None:
+            sub = tuple(s_.size_total for s_ in ix.subinfo.indices)
+            if int(np.prod(sub, dtype=int)) != shape[ax]:
+                continue  # a sparse fused axis is smaller than the product of its parts: not a size-preserving request
+            t1 = shape[:ax] + sub + shape[ax + 1 :]
+            split_targets.append(t1)
+            for k2, s2 in enumerate(ix.subinfo.indices):
+                if s2.subinfo is not None:
+                    sub2 = tuple(q.size_total for q in s2.subinfo.indices)
+                    if int(np.prod(sub2, dtype=int)) == sub[k2]:
+                        split_targets.append(shape[:ax] + sub[:k2] + sub2 + sub[k2 + 1 :] + shape[ax + 1 :])
+    for target in list(targets_of(shape)) + split_targets:
         if target == shape:
             continue
         cls = "all-singleton->()" if target == () else "general"
@@ -218,8 +260,15 @@ def reshape_failures(d, st=None):
                 continue
             if st is not None:
                 st.transitions += 1
-            if tuple(index_key(i) for i in z.indices) != keys:
+            ambiguous = target in split_targets and 1 in target
+            if tuple(index_key(i) for i in z.indices) != keys and not ambiguous:
                 fails.append((f"C07/reshape-back/{cls}/indices", f"{shape}->{target}->back: index tables not restored"))
+                continue
+            if ambiguous:
+                # splitting a fused axis that has size-one parts and merging again: which neighbour absorbs the singleton is
+                # the routine's choice (a different but equivalent grouping), so only rank, content and charge are compared
+                if z.ndim != x.ndim or content(z) != content(x) or z.charge != x.charge:
+                    fails.append((f"C07/reshape-back/{cls}/content", f"{shape}->{target}->back: rank, content or charge changed"))
                 continue
             if z.charge != x.charge:
                 fails.append((f"C07/reshape-back/{cls}/charge", f"{shape}->{target}->back"))
@@ -275,7 +324,16 @@ def run_group(ctx, group):
         stream = real_arrays(ctx, sym, n, ferm)
     else:
         _, sym, ferm, k, nch = group
-        stream = (dict(d, derive=(("fuse", ((0, 1),)),)) for d in real_arrays(ctx, sym, 3, ferm))
+
+        def prefused():
+            for j, d in enumerate(real_arrays(ctx, sym, 3, ferm)):
+                yield dict(d, derive=(("fuse", ((0, 1),)),))
+                if j % 4 == 0:
+                    # fused twice (nested sub-index info), then conjugated: reshape has to split both levels again
+                    yield dict(d, derive=(("fuse", ((0, 1),)), ("fuse", ((0, 1),)), ("conj",)))
+                    yield dict(d, derive=(("fuse", ((1, 2),)), ("conj",), ("fuse", ((1, 0),))))
+
+        stream = prefused()
     for i, d in enumerate(stream):
         if i % nch != k:
             continue
